@@ -59,8 +59,9 @@ pub fn norm(r: Result<Vec<u8>, IpcError>) -> Got {
 
 fn log_delivery(v: &[u8]) {
     match check_payload(v) {
-        Ok((_c, s, q)) => {
-            hist::log("deliver", s as i64, q as i64, v.len() as i64, "");
+        Ok((c, s, q)) => {
+            // decoy channels (c > 1) are folded into the sender id space: 100*c + s
+            hist::log("deliver", if c == 1 { s as i64 } else { 100 * c as i64 + s as i64 }, q as i64, v.len() as i64, "");
         },
         Err(e) => {
             hist::log("deliver.bad", v.len() as i64, 0, 0, &e);
@@ -105,9 +106,16 @@ fn receiver_loop(rx: Rx, mode: &str) {
         }
     }
 }
-fn set_loop(rx: IpcReceiver<Vec<u8>>) {
+fn set_loop(rx: IpcReceiver<Vec<u8>>, decoys: Vec<IpcReceiver<Vec<u8>>>, delay: u64) {
+    if delay > 0 {
+        sim::sleep_ns(delay);
+    }
     let mut set = IpcReceiverSet::new().unwrap();
     let id = set.add(rx).unwrap();
+    let mut open = 1 + decoys.len();
+    for d in decoys {
+        set.add(d).unwrap();
+    }
     loop {
         let rs = match set.select() {
             Ok(r) => r,
@@ -119,28 +127,42 @@ fn set_loop(rx: IpcReceiver<Vec<u8>>) {
         for r in rs {
             match r {
                 IpcSelectionResult::MessageReceived(i, m) => {
-                    if i != id {
-                        hist::log("deliver.bad", 0, 0, 0, "wrong id");
-                    }
                     match m.to::<Vec<u8>>() {
-                        Ok(v) => log_delivery(&v),
+                        Ok(v) => {
+                            // channel 1 = the channel under test, >1 = other members of the set
+                            let on_main = check_payload(&v).map(|t| t.0 == 1).unwrap_or(true);
+                            if on_main != (i == id) {
+                                hist::log("deliver.bad", 0, 0, 0, "reported under the id of another member");
+                            }
+                            log_delivery(&v)
+                        },
                         Err(e) => {
                             hist::log("deliver.bad", 0, 0, 0, &format!("decode: {}", e));
                         },
                     }
                 },
-                IpcSelectionResult::ChannelClosed(_) => {
-                    hist::log("recv.closed", 0, 0, 0, "");
-                    return;
+                IpcSelectionResult::ChannelClosed(i) => {
+                    if i == id {
+                        hist::log("recv.closed", 0, 0, 0, "");
+                    }
+                    open -= 1;
                 },
             }
+        }
+        if open == 0 {
+            return;
         }
     }
 }
 
 fn sender_body(tx: Tx, sender: u32, msgs: Vec<u64>) {
+    sender_body_on(tx, 1, sender, msgs)
+}
+fn sender_body_on(tx: Tx, chan: u32, sender: u32, msgs: Vec<u64>) {
+    let sid = if chan == 1 { sender } else { 100 * chan + sender };
+    let sender = sid;
     for (q, len) in msgs.iter().enumerate() {
-        let p = make_payload(1, sender, q as u32, *len as usize);
+        let p = make_payload(chan, if chan == 1 { sender } else { 0 }, q as u32, *len as usize);
         hist::log("send.inv", sender as i64, q as i64, p.len() as i64, "");
         let r = tx.send(p);
         match r {
@@ -185,14 +207,21 @@ impl Scenario for C02S {
             _ => r.range(3, 8),
         };
         let bytes = r.chance(1, 4);
+        // burst cases: many small messages pile up in front of a late receiver (default buffer)
+        let burst = r.chance(1, 6);
+        if burst {
+            sim["sndbuf"] = Value::Null;
+        }
         let mut senders = vec![];
         for _ in 0..nsend {
-            let n = r.range(1, if nsend > 4 { 5 } else { 12 });
-            let msgs: Vec<u64> = (0..n).map(|_| size_classes(&mut r, first) as u64).collect();
+            let n = if burst { r.range(10, 45) } else { r.range(1, if nsend > 4 { 5 } else { 12 }) };
+            let msgs: Vec<u64> = (0..n).map(|_| if burst { r.range(16, 90) } else { size_classes(&mut r, first) as u64 }).collect();
             senders.push(json!({"proc": !inproc && r.chance(1, 3), "msgs": msgs}));
         }
         let modes: &[&str] = if bytes { &["recv", "try"] } else { &["recv", "recv", "try", "timeout", "set", "set", "router"] };
-        json!({"sim": sim, "bytes": bytes, "mode": *r.pick(modes), "senders": senders, "first": first as u64})
+        let decoys: Vec<u64> = (0..r.below(4)).map(|_| r.range(1, 40)).collect();
+        json!({"sim": sim, "bytes": bytes, "mode": *r.pick(modes), "senders": senders, "first": first as u64,
+               "start_delay_us": if burst { *r.pick(&[500u64, 5000]) } else { *r.pick(&[0u64, 0, 0, 300]) }, "decoys": decoys})
     }
     fn run(&self, p: &Value) -> Outcome {
         let mut out = Outcome::default();
@@ -211,7 +240,15 @@ impl Scenario for C02S {
         let mut _keep_router = None;
         match (mode.as_str(), rx) {
             ("set", Rx::Typed(r)) => {
-                sim::spawn("receiver", None, move || set_loop(r));
+                let mut drx = vec![];
+                for (k, n) in p["decoys"].as_array().cloned().unwrap_or_default().iter().enumerate().take(4) {
+                    let (dt, dr) = ipc::channel::<Vec<u8>>().unwrap();
+                    drx.push(dr);
+                    let n = n.as_u64().unwrap_or(1).min(60);
+                    sim::spawn(&format!("decoy{}", k), None, move || sender_body_on(Tx::Typed(dt), 2 + k as u32, 0, (0..n).map(|_| 32).collect()));
+                }
+                let delay = p["start_delay_us"].as_u64().unwrap_or(0).min(1_000_000) * 1000;
+                sim::spawn("receiver", None, move || set_loop(r, drx, delay));
             },
             ("router", Rx::Typed(r)) => {
                 let router = RouterProxy::new();
@@ -237,7 +274,7 @@ impl Scenario for C02S {
         let mut total_msgs = 0;
         for (i, s) in senders.iter().enumerate().take(8) {
             let msgs: Vec<u64> = s["msgs"].as_array().map(|a| a.iter().filter_map(|x| x.as_u64()).map(|x| x.min(4 << 20)).collect()).unwrap_or_default();
-            let msgs: Vec<u64> = msgs.into_iter().take(12).collect();
+            let msgs: Vec<u64> = msgs.into_iter().take(48).collect();
             total_msgs += msgs.len();
             if msgs.iter().any(|&l| (l as usize).max(16) + if bytes { 0 } else { 8 } > first) {
                 multi = true;
@@ -299,6 +336,11 @@ impl Scenario for C02S {
             for da in &deliveries[i + 1..] {
                 let sa = sends.iter().find(|s| s.0 == da.0 && s.1 == da.1);
                 if let (Some(sa), Some(sb)) = (sa, sb) {
+                    // order is defined per channel (ids >= 100 are the other members of the set)
+                    let ch = |s: i64| if s < 100 { 1 } else { s / 100 };
+                    if ch(sa.0) != ch(sb.0) {
+                        continue;
+                    }
                     if let Some(ra) = sa.3 {
                         if sa.4 && ra < sb.2 {
                             out.viol(
@@ -312,7 +354,7 @@ impl Scenario for C02S {
         }
         // blocked senders at quiescence: the receiver is alive, so a send must not hang
         for b in &blocked {
-            if b.label.starts_with("sender") {
+            if b.label.starts_with("sender") || b.label.starts_with("decoy") {
                 out.viol("hang:send", format!("{} blocked forever in {} ({}) although its receiver is alive", b.label, b.in_call, b.cond));
             }
         }
